@@ -50,6 +50,37 @@ def nonstaging(t):
     return {k: v for k, v in t.items() if not k.endswith(".copia-tmp")}
 
 
+def cut_stream_scenario(rng, res, count):
+    """push of ONE file whose destination version has EXACTLY the source's length; the sender is killed after N bytes of the stream
+    (tools/sshstub: SSH_STUB_CUT_AFTER), the orphaned remote command completes on its own. Then the same command again."""
+    new, old = mk(rng, 300_000), mk(rng, 300_000)
+    src = {"mid.bin": new, "small.txt": b"small new\n"}; dst = {"mid.bin": old, "small.txt": b"small old version\n"}
+    for cut in (0, 1, 65_536, 150_000, 299_999):
+        with Sandbox("C09") as sb:
+            W = sb.path("W"); whome = os.path.join(W, "home"); os.makedirs(whome)
+            sb.env["HOME"] = whome; sb.env["SSH_STUB_HOME"] = whome
+            sroot, droot = os.path.join(W, "src"), os.path.join(whome, "rdst")
+            write_tree(sroot, src, {"mid.bin": 1_650_000_000, "small.txt": 1_650_000_001}); write_tree(droot, dst, {k: 1_500_000_000 for k in dst})
+            cmd = [CLI_BIN, "sync", "-r", sroot, f"{HOST}:rdst", "--jobs", "1"]
+            env = dict(sb.env, SSH_STUB_CUT_AFTER=str(cut), SSH_STUB_CUT_MATCH="mid.bin.copia-tmp")
+            kr = subprocess.run(cmd, env=env, cwd=sb.dir, stdout=subprocess.PIPE, stderr=subprocess.PIPE)
+            time.sleep(0.3)
+            count("push/stream-cut")
+            after = read_tree(droot)
+            rep = {"direction": "push", "flags": ["--jobs", "1"], "killed": f"sender SIGKILLed after {cut} of {len(new)} stream bytes of mid.bin", "rc": kr.returncode}
+            if kr.returncode != -9:
+                res["broken"].append(f"C09/cut-stream: the sender was not killed (rc {kr.returncode}): {kr.stderr.decode('utf-8', 'replace')[-200:]}")
+                continue
+            for p, c in nonstaging(after).items():
+                if c != dst.get(p) and c != src.get(p):
+                    res["violations"].append(("truncated-or-mixed-file-at-live-path", f"after the sender died, destination {p} holds {len(c)} bytes that are neither its old bytes nor the complete source file", rep))
+            rr = subprocess.run(cmd, env=sb.env, cwd=sb.dir, stdout=subprocess.PIPE, stderr=subprocess.PIPE)
+            again = nonstaging(read_tree(droot))
+            if rr.returncode != 0 or again != src:
+                diff = sorted(p for p in set(again) | set(src) if again.get(p) != src.get(p))
+                res["violations"].append(("rerun-does-not-reach-uninterrupted-result", f"the same command after the sender died mid-stream: rc={rr.returncode}, differs at {diff[:4]} (the destination keeps its old bytes); {rr.stderr.decode('utf-8', 'replace')[-200:]}", rep))
+
+
 def run(pid, tier, seed, rundir, model_run):
     rng = Rng(seed ^ 0xC09)
     res = {"violations": [], "broken": [], "notes": [], "distribution": {}, "samples": []}
@@ -75,9 +106,9 @@ def run(pid, tier, seed, rundir, model_run):
         src, dst = scenario_trees(rng)
         longlist = direction == "push-longlist"
         if direction == "push-samelen":
-            direction = "push"; longlist = True          # (sweeps the writes only)
-            src = {"mid.bin": src["mid.bin"], "small.txt": b"small new\n"}; dst = {"mid.bin": dst["mid.bin"], "small.txt": b"small old version\n"}
-        elif longlist:
+            cut_stream_scenario(rng, res, count)
+            continue
+        if longlist:
             direction = "push"
             src = {"small.txt": b"small new\n", "keep/k.txt": b"kept"}; dst = {"small.txt": b"small old version\n", "keep/k.txt": b"kept"}
             for i in range(1150):          # > 64 KiB of names: more than one pipe-full
